@@ -65,6 +65,7 @@ CheckCase(c) ==
          \A s \in DOMAIN c.lam : \A t \in DOMAIN c.lam[s] : c.lam[s][t].k = "x" =>
             Verdict(id, c.what \o ": eigenvalue correlator = exp(-E_n (t - t0))",
                     RClose(c.lam[s][t].x, RExp(RNeg(RMul(c.E[s], RFromInt(t - 1 - c.t0)))), "1/100000", "1/1000000000"))
+    [] c.ev = "frame" -> Verdict(id, c.what, c.before = c.after)
     [] c.ev = "pencil" ->    \* energies of an exact multi-exponential correlator
          IF c.res.k = "exc" THEN Verdict(id, "matrix pencil raised " \o c.res.t, FALSE)
          ELSE /\ Verdict(id, "number of energies", Len(c.res.E) = Len(c.E))
